@@ -126,6 +126,11 @@ def make_environ(rq: Dict[str, Any]) -> Dict[str, Any]:
         "wsgi.multiprocess": False,
         "wsgi.run_once": False,
     }
+    if rq.get("file_wrapper"):
+        # the optional platform-specific file handling of PEP 3333 that most servers (gunicorn, uWSGI, waitress, wsgiref) offer
+        from wsgiref.util import FileWrapper
+
+        env["wsgi.file_wrapper"] = FileWrapper
     if rq.get("client"):
         env["REMOTE_ADDR"] = str(rq["client"][0])
         env["REMOTE_PORT"] = str(rq["client"][1])
